@@ -641,6 +641,9 @@ func (s *seqState) stepOnce() {
 		status, _ = guard(func() error { return f.DropRow(i) })
 	case "fillna":
 		v := s.anyCell()
+		if s.mode == "c15" && r.Chance(30) {
+			v = Pick(r, []any{0, -1, 7, int64(0), 0.0, "", false}) // the fill values people use; the kind given is the kind stored
+		}
 		e.Tok("fillna")
 		e.Int(t)
 		e.Cell(v)
@@ -939,6 +942,8 @@ func genSeq(r *Rng, mode string, steps int) *Enc {
 		c07names := []string{"a", "b", "c"}
 		if r.Chance(12) {
 			c07names = []string{"index", "b", "c"} // "index" is an ordinary column for DropDuplicates
+		} else if r.Chance(10) {
+			c07names = []string{Pick(r, []string{"", " "}), "b", "c"} // so is a column whose name is empty or blank (a CSV header cell)
 		}
 		for _, c := range c07names[:r.Range(1, 3)] {
 			alpha := Pick(r, colAlpha)
@@ -1006,6 +1011,9 @@ func genSeq(r *Rng, mode string, steps int) *Enc {
 				for i := range d {
 					d[i] = Pick(r, []float64{0, 1, -0.5, 0.5, 2.9, -2.9, 1e15, 4611686018427387904.0 / 2, -7.99,
 						math.Copysign(0, -1), 0, 28.999999999999996, 0.9999999999999999, -2.9999999999999996})
+					if r.Chance(12) {
+						d[i] = nil // a float column with gaps
+					}
 				}
 			case 1:
 				d = r.Column(n, kInt)
